@@ -2,7 +2,7 @@
    Elements are the caller's handles (creation indices): member predicates create no elements in this fragment, so a
    dump of the implementation and a state of a model are compared as sets of facts over handles (no isomorphism
    search is needed: the identity on handles is the only candidate). *)
-From Coq Require Import List NArith Bool.
+From Coq Require Import List BinNat Bool.
 From Members Require Import Model.
 Import ListNotations.
 Open Scope N_scope.
@@ -87,6 +87,23 @@ Fixpoint early_morphisms_h (h : list mcall) : bool :=
   end.
 Definition early_morphisms (p : mprogram) (h : list mcall) : bool := negb (concludes_mor p) && early_morphisms_h h.
 
+(* a finer, state-dependent side condition (proved sufficient: FactsRun.faithful_final_timely): whenever a dom / cod
+   tuple is asserted, no OLD member tuple sits in the domain model of a morphism that this tuple completes.
+   "every morphism precedes the first close after the facts it transports" implies it. *)
+Definition pair_mem (e : N * N) (l : list (N * N)) : bool := existsb (fun x => N.eqb (fst x) (fst e) && N.eqb (snd x) (snd e)) l.
+Definition transports_old (st : fstate) (t : fact) : bool :=
+  existsb (fun e => negb (pair_mem e (f_edges st)) && existsb (at_model (fst e)) (all_old st))
+          (edges ((g_new st ++ [t]) ++ g_old st)).
+Definition safe_b (st : fstate) (t : fact) : bool := negb (transports_old st t).
+Fixpoint timely_from (fuel : nat) (p : mprogram) (h : list mcall) (st : fstate) : bool :=
+  match h with
+  | [] => true
+  | MFact t :: h' => safe_b st t && timely_from fuel p h' (f_insert p st t)
+  | MClose :: h' => match f_close fuel p st with Some st' => timely_from fuel p h' st' | None => true end
+  end.
+Definition timely (fuel : nat) (p : mprogram) (h : list mcall) : bool :=
+  negb (concludes_mor p) && timely_from fuel p h f_empty.
+
 (* one judgement per dump D_i (taken after the i-th close):
      (spec \ D_i, D_i \ spec, faithful \ D_i, D_i \ faithful, member_closed_b D_i) *)
 Definition judge_one (p : mprogram) (S F D : list fact) :=
@@ -106,5 +123,5 @@ Definition c17_judge (fuel : nat) (p : mprogram) (h : list mcall) (Ds : list (li
             | None => None
             | Some Fs => Some (map (fun x => match x with (Sx, Fx, Dx) => judge_one p Sx Fx Dx end) (zip3 Ss Fs Ds))
             end,
-            early_morphisms p h)
+            (early_morphisms p h, timely fuel p h))
   end.
